@@ -1,7 +1,8 @@
 /-
 C19 — preprocessed output is a faithful program.
 
-Property theorems only (helper lemmas: Lemmas/LexLemmas.lean — one scanning step —, Lemmas/LexSeq.lean — the loop).
+Property theorems only (helper lemmas: Lemmas/LexLemmas.lean — one scanning step —, Lemmas/LexSeq.lean — the loop —,
+Lemmas/C19Bridge.lean — the second pass).
 
 Objects:
   `lex`          Model/Lex.lean          tokenize.c `tokenize()` (scanning loop; code points; no NUL; well-formed UTF-8)
@@ -10,6 +11,7 @@ Objects:
                                          `is_word_char`, the punctuator table `kw[]`, the pp-number sets, the is_ident ranges)
   `secondPassX`  Model/C19Bridge.lean    the second `-E` pass on a freshly tokenized list: `preprocess2` of Model/PP.lean (the
                                          model C09/C10 tie to preprocess.c) from the table of `init_macros` (Gen/PPGen.lean)
+  `passText`     Model/C19Bridge.lean    a whole `chibicc -E` run over the models: text → `lex` → `toPPs` → `preprocess2` → `printTokens`
   `selfLexing a` the spelling `a`, scanned alone, is exactly one token spelled `a` (decidable, Model/Lex.lean).
                  Every token `tokenize` produces has such a spelling (C19_lexed_tokens_self_lexing), and every token of a -E
                  output was produced by some call of `tokenize` (source text, `##` paste, `#` stringize, builtin macros).
@@ -224,9 +226,10 @@ example : ∃ ts', lex (printTokens [⟨.ident, [97], true, false⟩, ⟨.punct,
 open ChibiVerif.C19Bridge in
 /-- **C19 (second pass, as text).**  `C19_idempotent_Statement` for the actual second pass (`secondPass fuel file`:
     re-read, `preprocess2` from the table of `init_macros`, back to printer tokens), restricted to the region where it is
-    true: inert token lists (see `C19_idempotent`) whose first token is at the beginning of a line and whose code points are Unicode scalar values (what `decode_utf8` yields on
-    well-formed UTF-8; needed only to carry spellings through `String`).  Printing, re-reading, preprocessing again and
-    printing again reproduces the text.  Outside the region the statement is false: Findings/C19.lean. -/
+    true: inert token lists (see `C19_idempotent`) whose first token is at the beginning of a line and whose code points
+    are Unicode scalar values (what `decode_utf8` yields on well-formed UTF-8; needed only to carry spellings through
+    `String`).  Printing, re-reading, preprocessing again and printing again reproduces the text.  Outside the region the
+    statement is false: Findings/C19.lean. -/
 theorem C19_idempotent_text (fuel : Nat) (file : String) (ts : List Tok) (h : ∀ t ∈ ts, selfLexing t.text = true)
     (hfirst : ∀ t ∈ ts.head?, t.atBol = true)
     (hin : Inert isInitMacro ts = true) (hv : validText ts = true) (hfuel : ts.length ≤ fuel) :
@@ -287,8 +290,7 @@ theorem C19_preprocess2_identity (lx : String → ChibiVerif.PP.LexOne) (st : Ch
     ChibiVerif.PP.preprocess2 lx fuel st us = .ok (us, st) :=
   ChibiVerif.C19Bridge.preprocess2_inert lx st us fuel hfuel h
 
-/-- non-vacuity: `x # 1` in the table of `init_macros` plus a user macro `y`; and the hypothesis matters: with `y` instead
-    of `x` the list changes -/
+/-- non-vacuity: `x # 1` in the table of `init_macros` plus a user macro `y` -/
 example :
     ChibiVerif.PP.preprocess2 ChibiVerif.PP.Lex.lexOne 3
       { defs := ("y", .obj [{ kind := .num, text := "2" }]) :: ChibiVerif.PP.initDefs }
@@ -298,6 +300,12 @@ example :
        { kind := .num, text := "1", hasSpace := true }],
       { defs := ("y", .obj [{ kind := .num, text := "2" }]) :: ChibiVerif.PP.initDefs }) :=
   C19_preprocess2_identity _ _ _ 3 (by decide) (by decide)
+
+/-- … and the hypothesis matters: with `y` instead of `x` the list changes -/
+example :
+    (ChibiVerif.PP.preprocess2 ChibiVerif.PP.Lex.lexOne 3
+      { defs := ("y", .obj [{ kind := .num, text := "2" }]) :: ChibiVerif.PP.initDefs }
+      [{ kind := .ident, text := "y", atBol := true }]).map (·.1.map (·.text)) = .ok ["2"] := by decide
 
 /-- **C19 (the first pass never emits a directive).**  No token in the output of `preprocess2` — any table, any input,
     any fuel — is a `#` with `at_bol` and without origin: a `#` that starts a line of the `-E` text was produced by a macro
@@ -311,5 +319,11 @@ theorem C19_output_hash_has_origin (lx : String → ChibiVerif.PP.LexOne) (n : N
   cases ho : u.origin with
   | some _ => rfl
   | none => simp [hb, ht, ho] at this
+
+/-- non-vacuity: `#define H #` / `H` at the beginning of a line: the output is one `#` with `at_bol` — and an origin -/
+example :
+    (ChibiVerif.PP.expand 5 [("H", .obj [{ kind := .punct, text := "#", hasSpace := true }])]
+      [{ kind := .ident, text := "H", atBol := true }]).map (·.map fun u => (u.text, u.atBol, u.origin.isSome))
+      = .ok [("#", true, true)] := by decide
 
 end ChibiVerif.Props.C19
